@@ -95,7 +95,7 @@ macro_rules! impl_range_exclusive_match_arms {
                 None
               ).with_compiler_loc());
             }
-            let size = range_size_to_usize!(diff, $ty);
+            let size = range_exclusive_size_to_usize!(diff, $ty);
             let mut vec = vec![from_val; size];
             match size {
               0 => Err(MechError::new(
